@@ -1,4 +1,4 @@
-// GENERATED on every run by vlib/extract.py from /tmp/seedcheck-15216 -- do not edit
+// GENERATED on every run by vlib/extract.py from /tmp/refcheck-18294 -- do not edit
 #![allow(unused_imports, unused_variables, unused_mut, dead_code, unused_parens, unused_braces, non_snake_case)]
 use vstd::prelude::*;
 use core::cmp::Ordering;
@@ -1677,6 +1677,7 @@ this.package_type.finish(&mut this.parts)?;
 if this.parts.name.is_empty() {
             return Err(T::Error::from(ParseError::MissingRequiredField(PurlField::Name)));
         }
+        x_retain_nonempty(&mut this.parts.qualifiers);
         
         proof {
             let q2 = this.parts.qualifiers.qualifiers@;
@@ -1688,7 +1689,6 @@ if this.parts.name.is_empty() {
 if let Some(checksum) = (match this.parts.qualifiers.try_get_typed::<Checksum>() { Ok(v_) => v_, Err(e_) => return Err(From::from(e_)) }) {
             this.parts.qualifiers.insert(Checksum::KEY, (match <SmallString as TryFrom<Checksum>>::try_from(checksum) { Ok(v_) => v_, Err(e_) => return Err(From::from(e_)) }))?;
         }
-        x_retain_nonempty(&mut this.parts.qualifiers);
         let GenericPurlBuilder { package_type, parts } = this;
         Ok(GenericPurl { package_type, parts })
     }
